@@ -7,6 +7,8 @@ use serde_json::Value;
 pub mod c01;
 pub mod c03;
 pub mod c04;
+pub mod c05;
+pub mod c07;
 pub mod c12;
 pub mod c13;
 
@@ -16,6 +18,8 @@ pub fn run(ctx: &Ctx) -> i32 {
         "C01" => c01::run(ctx),
         "C03" => c03::run(ctx),
         "C04" => c04::run(ctx),
+        "C05" => c05::run(ctx),
+        "C07" => c07::run(ctx),
         "C12" => c12::run(ctx),
         "C13" => c13::run(ctx),
         other => {
@@ -32,6 +36,8 @@ pub fn replay(ctx: &Ctx, v: &Value) -> i32 {
         "C01" => c01::replay(ctx, case),
         "C03" => c03::replay(ctx, case),
         "C04" => c04::replay(ctx, case),
+        "C05" => c05::replay(ctx, case),
+        "C07" => c07::replay(ctx, case),
         "C12" => c12::replay(ctx, case),
         "C13" => c13::replay(ctx, case),
         other => {
@@ -44,6 +50,20 @@ pub fn replay(ctx: &Ctx, v: &Value) -> i32 {
 pub fn selfcheck() -> i32 {
     match isa::selfcheck() {
         Ok(n) => println!("isa selfcheck: decode(encode(x)) canonical for {} tuples", n),
+        Err(e) => {
+            println!("HARNESS-FAILURE {}", e);
+            return 2;
+        }
+    }
+    match crate::refmodel::expr::selfcheck() {
+        Ok(n) => println!("expr model selfcheck: {} pinned render/eval cases", n),
+        Err(e) => {
+            println!("HARNESS-FAILURE {}", e);
+            return 2;
+        }
+    }
+    match crate::refmodel::ihex::selfcheck() {
+        Ok(n) => println!("ihex reader selfcheck: {} hand-made files classified correctly", n),
         Err(e) => {
             println!("HARNESS-FAILURE {}", e);
             return 2;
